@@ -827,6 +827,9 @@ def gen_compare(h, report):
            '  | a :: l, b :: r => match cmp a b with | .equiv => stdLex3 cmp l r | o => o',
            '']
     ops = {'==': 'opEq', '!=': 'opNe', '<': 'opLt', '<=': 'opLe', '>': 'opGt', '>=': 'opGe'}
+    # every legacy operator has two overloads: operands of different inline capacity (`opX`) and of the same inline capacity
+    # (`opXSame`, the more specialised one, chosen when N = M).  Both are translated; inside an overload the operators it
+    # calls resolve to the overload of the same kind.
     legacy = {}
     for sym, lname in ops.items():
         fs = [f for f in h.find_functions('operator' + sym, scope)]
@@ -834,35 +837,35 @@ def gen_compare(h, report):
         fs = [f for f in fs if re.match(r'operator' + re.escape(sym) + r'\s*\(', code[f['start']:f['start'] + 16])]
         if len(fs) != 2:
             raise Untranslatable('operator%s: %d definitions (expected mixed- and same-capacity)' % (sym, len(fs)))
-        bodies = set(norm(f['body']) for f in fs)
-        if len(bodies) != 1:
-            raise Untranslatable('operator%s: the two overloads differ' % sym)
-        legacy[sym] = (bodies.pop(), fs[0]['line'])
+        mixed = [f for f in fs if 'InlineCapacityLHS' in f['params']]
+        same = [f for f in fs if 'InlineCapacityLHS' not in f['params']]
+        if len(mixed) != 1 or len(same) != 1:
+            raise Untranslatable('operator%s: cannot tell the mixed- from the same-capacity overload' % sym)
+        legacy[sym] = dict(mixed=(norm(mixed[0]['body']), mixed[0]['line']), same=(norm(same[0]['body']), same[0]['line']))
     atoms = {'lhs': ('l', 'list'), 'rhs': ('r', 'list'), 'lhs.size': ('l.length', 'nat'), 'rhs.size': ('r.length', 'nat')}
 
-    def call_equal(args):
-        raise Untranslatable('std::equal shape')
-
-    for sym in ['==', '!=', '<', '>=', '>', '<=']:
-        body, ln = legacy[sym]
-        m = re.fullmatch(r'\{ return (.*); \}', body)
-        if not m:
-            raise Untranslatable('operator%s body: %s' % (sym, body))
-        ex = m.group(1)
-        ex = ex.replace('std::equal (lhs.begin (), lhs.end (), rhs.begin ())', 'STD_EQUAL_LR')
-        ex = ex.replace('std::lexicographical_compare (lhs.begin (), lhs.end (), rhs.begin (), rhs.end ())', 'STD_LEX_LR')
-        a = dict(atoms)
-        a['STD_EQUAL_LR'] = ('(stdEqual l r)', 'bool')
-        a['STD_LEX_LR'] = ('(stdLexLt lt l r)', 'bool')
-        calls = {'list==': 'opEq', 'list!=': 'opNe', 'list<': 'opLt lt', 'list<=': 'opLe lt', 'list>': 'opGt lt', 'list>=': 'opGe lt'}
-        e = Expr(tokenize(ex), a, calls).parse()
-        if e[1] != 'bool':
-            raise Untranslatable('operator%s: not Boolean' % sym)
-        out.append('/-- operator%s (hpp:%d)  `%s` -/' % (sym, ln, m.group(1)))
-        if sym in ('==', '!='):
-            out.append('def %s {α} [BEq α] (l r : List α) : Bool := %s\n' % (ops[sym], e[0]))
-        else:
-            out.append('def %s {α} (lt : α → α → Bool) (l r : List α) : Bool := %s\n' % (ops[sym], e[0]))
+    for kind, suffix in (('mixed', ''), ('same', 'Same')):
+        for sym in ['==', '!=', '<', '>=', '>', '<=']:
+            body, ln = legacy[sym][kind]
+            m = re.fullmatch(r'\{ return (.*); \}', body)
+            if not m:
+                raise Untranslatable('operator%s body: %s' % (sym, body))
+            ex = m.group(1)
+            ex = ex.replace('std::equal (lhs.begin (), lhs.end (), rhs.begin ())', 'STD_EQUAL_LR')
+            ex = ex.replace('std::lexicographical_compare (lhs.begin (), lhs.end (), rhs.begin (), rhs.end ())', 'STD_LEX_LR')
+            a = dict(atoms)
+            a['STD_EQUAL_LR'] = ('(stdEqual l r)', 'bool')
+            a['STD_LEX_LR'] = ('(stdLexLt lt l r)', 'bool')
+            calls = {'list==': 'opEq' + suffix, 'list!=': 'opNe' + suffix, 'list<': 'opLt%s lt' % suffix, 'list<=': 'opLe%s lt' % suffix,
+                     'list>': 'opGt%s lt' % suffix, 'list>=': 'opGe%s lt' % suffix}
+            e = Expr(tokenize(ex), a, calls).parse()
+            if e[1] != 'bool':
+                raise Untranslatable('operator%s: not Boolean' % sym)
+            out.append('/-- operator%s, %s inline capacities (hpp:%d)  `%s` -/' % (sym, 'different' if kind == 'mixed' else 'equal', ln, m.group(1)))
+            if sym in ('==', '!='):
+                out.append('def %s%s {α} [BEq α] (l r : List α) : Bool := %s\n' % (ops[sym], suffix, e[0]))
+            else:
+                out.append('def %s%s {α} (lt : α → α → Bool) (l r : List α) : Bool := %s\n' % (ops[sym], suffix, e[0]))
     # <=>
     fs = [f for f in h.find_functions('operator<=>', scope)]
     if len(fs) != 4:
@@ -1132,9 +1135,14 @@ def main():
             changed = write_if_changed(path, text)
             report['files'][name] = dict(ok=True, changed=changed)
         except Untranslatable as ex:
-            text = PRELUDE % 'FAILED' + '-- UNTRANSLATABLE: %s\n#exit\n' % str(ex).replace('\n', ' ')
-            # a file that fails to provide its definitions: dependents stop elaborating
-            text = PRELUDE % 'FAILED' + 'namespace SvModel.Gen\n-- UNTRANSLATABLE: %s\nend SvModel.Gen\n' % str(ex).replace('\n', ' ')
+            # the whole file could not be produced from the current header.  Keep the library (and the driver) building:
+            # fall back to the baseline text, marked STALE; the properties that read this file get a broken tie, the
+            # differential run shows where the stale part of the model and the code now differ.
+            base = os.path.join(BASELINE_DIR, name + '.lean')
+            if os.path.exists(base) and not os.environ.get('VERIF_NO_BASELINE'):
+                text = '-- STALE (baseline text; the current header could not be translated: %s)\n' % str(ex).replace('\n', ' ') + open(base).read()
+            else:
+                text = PRELUDE % 'FAILED' + 'namespace SvModel.Gen\n-- UNTRANSLATABLE: %s\nend SvModel.Gen\n' % str(ex).replace('\n', ' ')
             changed = write_if_changed(path, text)
             report['files'][name] = dict(ok=False, changed=changed, why=str(ex))
             report['untranslatable'].append(dict(item='file ' + name, why=str(ex)))
